@@ -348,13 +348,15 @@ class WirelessNetworkInterface(NetworkInterface, ABC):
         """
         if not self.enabled:
             return False
+        # stamp the frame first: the timestamp is part of the frame's size, and the size checked against the channel's
+        # capacity must be the size that is then loaded onto the channel
+        frame.set_sent_timestamp()
         if not self.airspace.can_transmit_frame(frame, self):
             # Drop frame for now. Queuing will happen here (probably) if it's done in the future.
             self._connected_node.sys_log.info(f"{self}: Frame dropped as Link is at capacity")
             return False
 
         super().send_frame(frame)
-        frame.set_sent_timestamp()
         self.pcap.capture_outbound(frame)
         self.airspace.transmit(frame, self)
         return True
